@@ -1317,3 +1317,65 @@ def cmd_priority_probe(cfg):
         return (got, want)
     finally:
         shutil.rmtree(base, ignore_errors=True)
+
+
+def starttime_probe(t_fill, t_regen):
+    """a cached page whose backend honours Cache.starttime (a stored value is dropped when it was stored before the template's
+    module was generated - Beaker's rule) and outlives the Template object: the old module fills the cache at clock instant
+    t_fill, the source is edited, the module is regenerated at t_regen > t_fill: the render after the rewrite must show the
+    current source.  The clock of the code generator is a stub.  returns (rendered after the rewrite, expected)"""
+    import os
+    import shutil
+    import sys
+    import tempfile
+    import time
+    import types
+    from mako import cache as C
+    from mako import codegen as CG
+    from mako.template import Template
+    clock = [0.0]
+    store = {}
+
+    class Impl(C.CacheImpl):
+        def get_or_create(self, key, creation_function, **kw):
+            ent = store.get((self.cache.id, key))
+            if ent is None or ent[0] < self.cache.starttime:
+                ent = store[(self.cache.id, key)] = (clock[0], creation_function())
+            return ent[1]
+
+        def set(self, key, value, **kw):
+            store[(self.cache.id, key)] = (clock[0], value)
+
+        def get(self, key, **kw):
+            ent = store.get((self.cache.id, key))
+            return None if ent is None or ent[0] < self.cache.starttime else ent[1]
+
+        def invalidate(self, key, **kw):
+            store.pop((self.cache.id, key), None)
+    mod = types.ModuleType("c15_starttime_backend")
+    mod.Impl = Impl
+    sys.modules["c15_starttime_backend"] = mod
+    C.register_plugin("c15starttime", "c15_starttime_backend", "Impl")
+    real_time = CG.time
+    CG.time = types.SimpleNamespace(time=lambda: clock[0])
+    base = tempfile.mkdtemp(prefix="c15start")
+    try:
+        fn, md = os.path.join(base, "page.html"), os.path.join(base, "mods")
+        now = time.time()
+        with open(fn, "w") as f:
+            f.write('<%page cached="True"/>version 1')
+        os.utime(fn, (now - 100, now - 100))
+        clock[0] = 1000.05
+        t1 = Template(filename=fn, module_directory=md, cache_impl="c15starttime")
+        clock[0] = t_fill
+        first = t1.render()
+        with open(fn, "w") as f:
+            f.write('<%page cached="True"/>version 2')
+        os.utime(fn, (now + 5, now + 5))          # whole seconds newer than the module file: a rewrite is due
+        clock[0] = t_regen
+        t2 = Template(filename=fn, module_directory=md, cache_impl="c15starttime")
+        clock[0] = t_regen + 0.01
+        return (first + " / " + t2.render(), "version 1 / version 2")
+    finally:
+        CG.time = real_time
+        shutil.rmtree(base, ignore_errors=True)
